@@ -112,7 +112,10 @@ class Abs26Relocation(Relocation):
 
     def calc(self, sym_value, reloc_value):
         assert sym_value % 4 == 0
-        return sym_value >> 2
+        # The upper 4 bits of the target are taken from the delay slot address:
+        region = ((reloc_value + 4) & 0xFFFFFFFF) >> 28
+        assert sym_value >> 28 == region, str(sym_value)
+        return (sym_value >> 2) & 0x3FFFFFF
 
 
 # Memory instructions:
